@@ -763,9 +763,6 @@ def fixed_cases():
 
 
 def run(chk):
-    if not chk.findings and os.path.exists(KF_FALLBACK):
-        # TEMPORARY FALLBACK (lead: drop after merging build/kf-C16.json into known_findings.json)
-        chk.findings = [f for f in json.load(open(KF_FALLBACK)) if f.get("property") == "C16"]
     chk.trusted = [
         "Coq 8.16.1 kernel (coqc; vm_compute for closed witnesses and for evaluating the model in the correspondence run)",
         "hand-written C16/Model.v for discover_test_files / discover_tests_and_fixtures / the filter, verdict loop, summary and exit code of run_tests (tied by correspondence, not generated)",
